@@ -495,3 +495,19 @@ def _com(rep, m):
     ob = prove("com.lemma.mod-shift", [ra >= 0, ra < 1, rb >= 0, rb < 1], ra == rb, func="matid/geometry/geometry.py:get_center_of_mass")
     rep.add(ob)
     rep.unproved_conjuncts.append("C20: 'the periodic centre of mass moves with a rigid translation (modulo the lattice)' is a property of the circular-mean formula (trigonometry); proved here: the code computes exactly that formula, and lattice shifts of single atoms change no summand")
+
+
+def replay(ob):
+    """native replay: evaluate the property clause of the failed obligation's section on the real functions"""
+    from props import C20_native
+    sec = ob.id.split(".")[0].split("[")[0]
+    sec = {"scaled": "scaled", "wrapped": "wrapped", "swap": "swap", "complete": "complete", "min": "min", "inertia": "inertia", "com": "com"}.get(sec)
+    if sec is None:
+        return {"reproduced": False, "note": "no native section for %s" % ob.id}
+    fails = C20_native.check(sec)
+    return {"reproduced": bool(fails), "failing_inputs": fails, "section": sec}
+
+
+def replay_file(rp):
+    from engine.common import Ob
+    return replay(Ob(id=rp["obligation"]))
